@@ -153,6 +153,9 @@ func (o *Obligation) Query() (string, []*Term) {
 }
 
 func (o *Obligation) Query2() (string, []string, []*Term) {
+	if o.Kind == "jet" {
+		return o.jetQuery()
+	}
 	ex := o.Ex
 	var as []*Term
 	as = append(as, ex.axioms...)
@@ -635,6 +638,13 @@ func (V *Verifier) solveRendered(o *Obligation, pass int) {
 					}()
 				}
 				first := <-ch
+				if o.Kind == "jet" && !(first.res.status == "sat" || first.res.status == "unsat") {
+					if ok, out, el := sympyProve(o.Goal, time.Duration(V.opts.Timeout)*3*time.Second, strings.TrimSuffix(file, ".smt2")+".py"); ok {
+						first.res = solveResult{"unsat", "sympy", first.res.time + el, out}
+					} else {
+						first.res.output += "; sympy: " + truncate(out, 200)
+					}
+				}
 				if nl == 1 && !(first.res.status == "sat" || first.res.status == "unsat") {
 					second := <-ch
 					if second.res.status == "sat" || second.res.status == "unsat" {
@@ -1267,4 +1277,132 @@ func (V *Verifier) smallModel(file string, r *rendered) map[string]string {
 		return nil
 	}
 	return parseValuesStr(out, r.gts)
+}
+
+// jetQuery: hypotheses + negated goal + instances of the exp/log axioms for the atoms that occur.
+func (o *Obligation) jetQuery() (string, []string, []*Term) {
+	as := append([]*Term{}, o.JetHyp...)
+	as = append(as, Not(o.Goal))
+	// goal equalities between log-valued sums are compared through exp (injective)
+	var extra []*Term
+	var eqs func(t *Term)
+	eqs = func(t *Term) {
+		switch t.Op {
+		case "and":
+			for _, a := range t.Args {
+				eqs(a)
+			}
+		case "=":
+			if t.Args[0].S == SReal && (mentionsFn(t.Args[0], "log") || mentionsFn(t.Args[1], "log") || mentionsFn(t.Args[0], "log1p") || mentionsFn(t.Args[1], "log1p")) {
+				ea, eb := App("exp", SReal, t.Args[0]), App("exp", SReal, t.Args[1])
+				extra = append(extra, Eq(Eq(ea, eb), t))
+			}
+		}
+	}
+	eqs(o.Goal)
+	as = append(as, extra...)
+	as = append(as, mathAxiomInstances(as)...)
+	sc := &Script{Asserts: as}
+	text := sc.Render(preludeFor(as), nil)
+	si := collect(as)
+	var names []string
+	for n, s := range si.consts {
+		if s == SInt || s == SReal || s == SBool {
+			names = append(names, n)
+		}
+	}
+	sort.Strings(names)
+	var gv []string
+	var gt []*Term
+	for _, n := range names {
+		gv = append(gv, smtSym(n))
+		gt = append(gt, Const(n, si.consts[n]))
+	}
+	if len(gv) > 0 {
+		text += "(get-value (" + strings.Join(gv, " ") + "))\n"
+	}
+	return text, nil, gt
+}
+
+func mentionsFn(t *Term, name string) bool {
+	if t.Op == "f:"+name {
+		return true
+	}
+	for _, a := range t.Args {
+		if mentionsFn(a, name) {
+			return true
+		}
+	}
+	return false
+}
+
+// mathAxiomInstances: ground instances of the defining properties of exp / log / log1p / sqrt for the
+// atoms of the query (two rounds so that introduced atoms get their own instances).
+func mathAxiomInstances(as []*Term) []*Term {
+	var out []*Term
+	seenOut := map[*Term]bool{}
+	emit := func(t *Term) {
+		if t != True && !seenOut[t] {
+			seenOut[t] = true
+			out = append(out, t)
+		}
+	}
+	zero, one := RealOfInt(0), RealOfInt(1)
+	for round := 0; round < 3; round++ {
+		atoms := map[string][]*Term{}
+		seen := map[*Term]bool{}
+		var walk func(t *Term)
+		walk = func(t *Term) {
+			if seen[t] {
+				return
+			}
+			seen[t] = true
+			if strings.HasPrefix(t.Op, "f:") && len(t.Args) == 1 {
+				atoms[t.Op[2:]] = append(atoms[t.Op[2:]], t)
+			}
+			for _, a := range t.Args {
+				walk(a)
+			}
+		}
+		for _, a := range as {
+			walk(a)
+		}
+		for _, a := range out {
+			walk(a)
+		}
+		for _, e := range atoms["exp"] {
+			u := e.Args[0]
+			emit(Gt(e, zero))
+			emit(Eq(Mul(e, App("exp", SReal, Neg(u))), one))
+			emit(Eq(App("log", SReal, e), u))
+			// sums: exp(p + q) = exp(p) exp(q)
+			if u.Op == "+" {
+				emit(Eq(e, Mul(App("exp", SReal, u.Args[0]), App("exp", SReal, u.Args[1]))))
+			}
+			if u.Op == "-" {
+				emit(Eq(Mul(e, App("exp", SReal, u.Args[1])), App("exp", SReal, u.Args[0])))
+			}
+		}
+		// exp is injective / monotone on the atoms present
+		ex := atoms["exp"]
+		for i := 0; i < len(ex) && i < 12; i++ {
+			for j := i + 1; j < len(ex) && j < 12; j++ {
+				emit(Eq(Lt(ex[i].Args[0], ex[j].Args[0]), Lt(ex[i], ex[j])))
+			}
+		}
+		for _, l := range atoms["log"] {
+			u := l.Args[0]
+			emit(Implies(Gt(u, zero), Eq(App("exp", SReal, l), u)))
+			if u.Op == "*" {
+				emit(Implies(And(Gt(u.Args[0], zero), Gt(u.Args[1], zero)), Eq(l, Add(App("log", SReal, u.Args[0]), App("log", SReal, u.Args[1])))))
+			}
+		}
+		for _, l := range atoms["log1p"] {
+			emit(Eq(l, App("log", SReal, Add(one, l.Args[0]))))
+		}
+		for _, q := range atoms["sqrt"] {
+			emit(Implies(Ge(q.Args[0], zero), And(Ge(q, zero), Eq(Mul(q, q), q.Args[0]))))
+		}
+	}
+	return out
 }
